@@ -1175,6 +1175,7 @@ class ClientObservation:
     class _Iterator:
         def __init__(self):
             self._future = asyncio.get_running_loop().create_future()
+            self._pending_error = None
 
         def push(self, item):
             if self._future.done():
@@ -1184,8 +1185,13 @@ class ClientObservation:
 
         def push_err(self, e):
             if self._future.done():
-                self._future = asyncio.get_running_loop().create_future()
-            self._future.set_exception(e)
+                # A newer notification may overwrite an unfetched older one
+                # (observe is lossy), but the end of the observation does not
+                # supersede the latest item (typically the final response): it
+                # is raised after that item has been fetched.
+                self._pending_error = e
+            else:
+                self._future.set_exception(e)
 
         async def __anext__(self):
             f = self._future
@@ -1196,6 +1202,9 @@ class ClientObservation:
                 # a quick second future comes in in a push?
                 if f is self._future:
                     self._future = asyncio.get_running_loop().create_future()
+                    if self._pending_error is not None:
+                        self._future.set_exception(self._pending_error)
+                        self._pending_error = None
                 return result
             except (error.NotObservable, error.ObservationCancelled):
                 # only exit cleanly when the server -- right away or later --
